@@ -74,6 +74,19 @@ CHECKS = {
              "WebSocket frames not exercised",
         technique="TLA+ reference (NunHttp) + TLC trace validation of real HTTP requests; TLC-generated bodies",
         design="DESIGN.md §5 C20"),
+    "C02": dict(
+        level="model_checking",
+        text="NunKVConc (lock-granular implementation-shaped model, one module per scenario) is explored "
+             "by TLC: all interleavings of two clients x one command for every pair of {set, set-safe "
+             "at/below/above current, increment, get-safe, remove}, simulation for 2-3 clients x 1-3 "
+             "commands; the interleavings are forced on the real code through yield hooks before every "
+             "lock acquisition and each run is validated by TLC against the linearizability trace "
+             "specification Trace_KVLin (atomic compare-and-set, version growth, no lost update); "
+             "sequential histories against NunKV group VER (every version argument).",
+        note="interleavings at the granularity of the yield hooks (before each Database.map / "
+             "Watchers.map acquisition); quick tier samples up to 60 schedules per scenario; dev profile",
+        technique="TLA+ linearizability trace spec + TLC trace validation; TLC-generated schedules forced by a cooperative scheduler",
+        design="DESIGN.md §5 C02"),
 }
 
 NOT_YET = "check not built yet (build in progress; see DESIGN.md §8 build order)"
